@@ -113,4 +113,9 @@ def scen_key(s):
     inj = s['inj']
     st = [k for k in ('call', 'fn', 'ret', 'ser') if inj[k] != 'ok']
     injs = '%s:%s@%s' % (st[0], inj[st[0]], inj['at']) if st else 'none'
-    return 'tr=%s|fam=%s|req=%s|inj=%s' % (s['cfg']['tr'], s['cfg']['family'], s['req']['class'], injs)
+    key = 'tr=%s|fam=%s|req=%s|inj=%s' % (s['cfg']['tr'], s['cfg']['family'], s['req']['class'], injs)
+    if s['req'].get('kind', 'rpc') != 'rpc':
+        key += '|kind=%s' % s['req']['kind']
+    if inj.get('res', 'plain') not in ('plain', 'gen'):
+        key += '|res=%s' % inj['res']
+    return key
